@@ -341,26 +341,7 @@ class RefModel:
         self._equalities(a, W, groups, fvars)
 
     def _blocks(self, a, W):
-        """storage time blocks: consecutive spans of block_size from the window start"""
-        bs = a.get("block_size")
-        if not bs or not W:
-            return [W]
-        g = self.g
-        tz = self.date_tz or g.tz
-        ws = parse_instant(a["start"], tz) if a.get("start") else g.start
-        ws = max(ws, g.start) if False else ws
-        far = g.all_points[-1]
-        bounds = _points(ws, far + (far - g.start), bs, g.tz)
-        blocks = []
-        for b0, b1 in zip(bounds[:-1], bounds[1:]):
-            B = [t for t in W if b0 <= g.points[t] < b1]
-            if B:
-                blocks.append(B)
-        covered = [t for B in blocks for t in B]
-        rest = [t for t in W if t not in covered]
-        if rest:
-            blocks.append(rest)
-        return blocks
+        return storage_blocks(self.g, a, W, self.date_tz)
 
     def _storage(self, a):
         lp, g = self.lp, self.g
@@ -522,6 +503,27 @@ class RefModel:
                 arr[t] += c0 + sum(x[j] * v for j, v in e.items())
             out[asset] = arr
         return out
+
+
+def storage_blocks(g, a, W, date_tz=None):
+    """storage time blocks: consecutive spans of block_size counted from the window start"""
+    bs = a.get("block_size")
+    if not bs or not W:
+        return [list(W)]
+    tz = date_tz or g.tz
+    ws = parse_instant(a["start"], tz) if a.get("start") else g.start
+    far = g.all_points[-1]
+    bounds = _points(ws, far + (far - g.start), bs, g.tz)
+    blocks = []
+    for b0, b1 in zip(bounds[:-1], bounds[1:]):
+        B = [t for t in W if b0 <= g.points[t] < b1]
+        if B:
+            blocks.append(B)
+    covered = set(t for B in blocks for t in B)
+    rest = [t for t in W if t not in covered]
+    if rest:
+        blocks.append(rest)
+    return blocks
 
 
 def interval_values(g, d, W, date_tz=None):
